@@ -62,6 +62,18 @@ def gen(rng, tier):
                 "history %s %s %s x636f6e66 x3d x23" % (enc(b"/u"), enc(b"/e"), enc(b"ex"))]
         s = Scenario(cmds, tags=("names-masking",)); s.field, s.n = "names-masking", n
         out.append(s)
+    # several drop-in directory formats, a short one first and a long one (up to NAME_MAX) behind it
+    for n in (12, 200, 249):                      # "app" + format = 255 bytes = NAME_MAX for the last one
+        fmt = b"." + b"p" * n + b".d"
+        cmds = ["fsdir %s 0 0" % enc(b"/cd"), "fsdir %s 0 0" % enc(b"/cd/app.d"), "fsdir %s 0 0" % enc(b"/cd/app" + fmt),
+                "fsfile %s %s 0 0" % (enc(b"/cd/app.conf"), enc(b"main=1\n")),
+                "fsfile %s %s 0 0" % (enc(b"/cd/app.d/1.conf"), enc(b"first=1\n")),
+                "fsfile %s %s 0 0" % (enc(b"/cd/app" + fmt + b"/2.conf"), enc(b"second=2\n")),
+                "confdirs " + ",".join(enc(x) for x in (b".d", fmt)),
+                "readdirs 0 %s %s %s x636f6e66 x3d x23" % (enc(b"/cd"), enc(b"/nowhere"), enc(b"app")), "getall 0",
+                "newopts 1 " + enc(b"PARSING_DIRS=/cd;CONFIG_DIRS=.d:" + fmt), "readconfig 1 - - %s x636f6e66 x3d x23" % enc(b"app"), "getall 1"]
+        s = Scenario(cmds, tags=("formats",)); s.field, s.n = "formats", n
+        out.append(s)
     # the main file of a layered read at the longest names the system accepts: the REAL path of the /etc-side file is
     # PATH_MAX-1 (4095), just below, and far below; the vendor side holds a file of the same name that must lose
     rl = vlib.root_len()
@@ -100,6 +112,9 @@ def oracle(s, ilines):
             longest = max((len(t) for t in l.replace(";", " ").replace(",", " ").replace("=", " ").split()), default=0)
             if field in ("comment-before", "comment-after", "comment-block", "comment-after-block") and idx == 5: continue   # merge keeps comments too, checked via model
             if longest < 2 * n: return "%s of %d bytes came back shorter through `%s`: longest token %d bytes" % (field, n, s.cmds[idx], longest // 2)
+    if field == "formats":
+        for idx in (8, 11):
+            if enc(b"second")[1:] not in ilines[idx]: return "drop-ins of the %d-byte directory format behind a shorter one are missing: %s" % (n + 3, ilines[idx][:200])
     if field == "names-masking":
         if enc(b"ONLY_VENDOR")[1:] in ilines[6]: return "a %d-byte drop-in name no longer masks the same name of the lower layer: %s" % (n, ilines[6][:200])
     if field == "pathmax":
